@@ -148,6 +148,7 @@ func TestCheck(t *testing.T) {
 	rep.Count("close_bound_checks_exact_next_send", tot.boundExact)
 	rep.Count("close_bound_checks_forwarded", tot.boundFwd)
 	rep.Count("close_writer_told", tot.told)
+	rep.Count("close_delayed_by_filtered_items", tot.filterDelayed)
 	rep.Count("premature_close_checks", tot.premChecked)
 	rep.Count("leak_checks", tot.leakRuns)
 	rep.Count("leak_checks_not_settled", tot.settleFail)
@@ -203,4 +204,5 @@ func (a *stats) add(b stats) {
 	a.leakRuns += b.leakRuns
 	a.settleFail += b.settleFail
 	a.endsClosedEarly += b.endsClosedEarly
+	a.filterDelayed += b.filterDelayed
 }
